@@ -174,10 +174,9 @@ func verifOwn(s interface{}, tag string) {
 	if v.Kind() != reflect.Slice || v.IsNil() {
 		return
 	}
-	full := v.Slice3(0, v.Cap(), v.Cap())
-	snap := reflect.MakeSlice(v.Type(), full.Len(), full.Len())
-	reflect.Copy(snap, full)
-	verifState.owned = append(verifState.owned, verifOwnRec{tag, full, snap})
+	snap := reflect.MakeSlice(v.Type(), v.Len(), v.Len())
+	reflect.Copy(snap, v)
+	verifState.owned = append(verifState.owned, verifOwnRec{tag, v, snap})
 }
 func verifCheckOwned(id string) {
 	for _, r := range verifState.owned {
